@@ -527,19 +527,29 @@ class RuntimeV2_x(Runtime):
 
                 # Advance the state machine
                 new_event: Optional[Union[dict, Event]] = event
+                reporting_error = False
                 while new_event is not None:
                     try:
                         run_to_completion(state, new_event)
                         new_event = None
                     except Exception as e:
                         log.warning("Colang runtime error!", exc_info=True)
-                        new_event = Event(
-                            name="ColangError",
-                            arguments={
-                                "type": str(type(e).__name__),
-                                "error": str(e),
-                            },
-                        )
+                        if reporting_error:
+                            # The error event itself cannot be processed, reporting
+                            # that again would never end
+                            log.critical(
+                                "Colang runtime error while processing a ColangError event!"
+                            )
+                            new_event = None
+                        else:
+                            reporting_error = True
+                            new_event = Event(
+                                name="ColangError",
+                                arguments={
+                                    "type": str(type(e).__name__),
+                                    "error": str(e),
+                                },
+                            )
                     await asyncio.sleep(0.001)
 
                 # If we have context updates after this event, we first add that.
